@@ -249,4 +249,64 @@ inductive ReachVia (f : FuncIR) : List Lbl → Lbl → CState → Prop where
 /-- The function is memory safe in the ownership semantics: on every path, every block entered is safe. -/
 def Safe (f : FuncIR) : Prop := ∀ path l s, ReachVia f path l s → BlockSafe f l s
 
+/-! ## replaying a witness path (decidable refutation of `Safe`) -/
+
+/-- a decidable sufficient condition for `¬ BlockSafe f l s` -/
+def termUnsafe (f : FuncIR) (s : CState) : Term → Bool
+  | .unreachable => false
+  | .ret v =>
+    match retStep v s with
+    | none => true
+    | some s' => (List.range f.nvars).any (fun x => (s' x).owns)
+  | .br es => es.any (fun e => !decide (e.target < f.blocks.size) || (runOps e.ops s).isNone)
+
+def blockUnsafe (f : FuncIR) (l : Lbl) (s : CState) : Bool :=
+  match f.blocks[l]? with
+  | none => true
+  | some b =>
+    match runOps b.ops s with
+    | none => true
+    | some ss => ss.any (fun s' => termUnsafe f s' b.term)
+
+/-- one step of a witness: which successor state after the block's ops, which edge, which successor after the
+    edge's ops -/
+structure Choice where
+  afterOps : Nat
+  edge : Nat
+  afterEdge : Nat
+deriving Repr
+
+/-- replay `w` from block `l` in state `s`; `true` = the path exists and ends in an unsafe block entry -/
+def replayFrom (f : FuncIR) : List Choice → Lbl → CState → Bool
+  | [], l, s => blockUnsafe f l s
+  | c :: rest, l, s =>
+    match f.blocks[l]? with
+    | none => false
+    | some b =>
+      match runOps b.ops s with
+      | none => false
+      | some ss =>
+        match ss[c.afterOps]?, b.term with
+        | some s', .br es =>
+          match es[c.edge]? with
+          | none => false
+          | some e =>
+            match runOps e.ops s' with
+            | none => false
+            | some ss' =>
+              match ss'[c.afterEdge]? with
+              | none => false
+              | some s'' => replayFrom f rest e.target s''
+        | _, _ => false
+
+/-- an allowed initial state: arguments borrowed and non-null, except the optional arguments listed in `nulls`,
+    which the caller left out (error value); every other variable uninitialised -/
+def initStateWith (f : FuncIR) (nulls : List Var) : CState := fun v =>
+  match argKindOf f.args v with
+  | some .optional => if nulls.contains v then .null else .obj 0 true
+  | some .borrowed => .obj 0 true
+  | none => .undef
+
+def initState0 (f : FuncIR) : CState := initStateWith f []
+
 end Own
